@@ -165,6 +165,54 @@ func escapeLookalikeCases() ([]cases.ScanCase, []cases.ScanCase) {
 	return odd, plain
 }
 
+// selectorRootCases: ROOT arguments with an `@{...}` selector (no reference name can contain one): the upstream of a
+// branch, configured in the repository. The twin names the same commit plainly. Compared: also the keys INSIDE
+// every JSON v2 item (objectName, objectDescription ...).
+func selectorRootCases() ([]cases.ScanCase, []cases.ScanCase) {
+	var odd, plain []cases.ScanCase
+	for i, sel := range []string{"main@{u}", "main@{upstream}^{commit}", "main@{upstream}~0"} {
+		mk := func(arg string) cases.ScanCase {
+			names := map[int][]byte{1: []byte("big"), 2: []byte("small")}
+			g := model.Graph{Blobs: []int{5000, 7},
+				Trees:   [][]model.Entry{{{K: "file", To: 1, N: 1, NL: 3}, {K: "file", To: 2, N: 2, NL: 5}}},
+				Commits: []model.Commit{{Tree: 1, Parents: []int{}}, {Tree: 1, Parents: []int{1}, Size: 900}}}
+			g.Normalize()
+			return cases.ScanCase{G: g, Names: names, Style: "full", Args: []string{arg},
+				Gitconfig: "[branch \"main\"]\n\tremote = .\n\tmerge = refs/heads/up\n",
+				Roots: []cases.RootSpec{{O: model.Oid{K: "c", I: 1}, Walk: false, IsRef: true, Name: "refs/heads/main", Kind: "plain"},
+					{O: model.Oid{K: "c", I: 2}, Walk: false, IsRef: true, Name: "refs/heads/up", Kind: "plain"},
+					{O: model.Oid{K: "c", I: 2}, Walk: true, IsRef: false, Name: arg, Kind: "plain"}}}
+		}
+		o, p := mk(sel), mk("refs/heads/up")
+		o.ID = fmt.Sprintf("selector-%d", i+1)
+		p.ID = o.ID + "-plain"
+		odd = append(odd, o)
+		plain = append(plain, p)
+	}
+	return odd, plain
+}
+
+// itemKeySets: for every item of a JSON v2 report, the sorted keys inside it.
+func itemKeySets(doc string) map[string]string {
+	var m map[string]map[string]json.RawMessage
+	if json.Unmarshal([]byte(doc), &m) != nil {
+		return nil
+	}
+	out := map[string]string{}
+	for k, item := range m {
+		if strings.HasPrefix(k, "refgroup.") {
+			continue
+		}
+		ks := make([]string, 0, len(item))
+		for kk := range item {
+			ks = append(ks, kk)
+		}
+		sort.Strings(ks)
+		out[k] = strings.Join(ks, ",")
+	}
+	return out
+}
+
 func keySet(m map[string]json.RawMessage) string {
 	ks := make([]string, 0, len(m))
 	for k := range m {
@@ -291,15 +339,22 @@ func checkC19(c *Ctx) {
 	eo, ep := escapeLookalikeCases()
 	odd = append(odd, eo...)
 	plain = append(plain, ep...)
+	so, spl := selectorRootCases()
+	odd = append(odd, so...)
+	plain = append(plain, spl...)
 	ro := env.parallelCLI(odd, cliOpt{Formats: true, NoTrace: true}, 16)
 	rp := env.parallelCLI(plain, cliOpt{Formats: true, NoTrace: true}, 16)
 	var fcs []map[string]interface{}
 	goBad := map[string][]string{}
 	byID := map[string]*cliRun{}
+	twinOf := map[string]*cases.ScanCase{}
 	for i := range odd {
 		a, b := ro[i], rp[i]
 		if a == nil || b == nil {
 			continue
+		}
+		if strings.HasPrefix(odd[i].ID, "selector-") {
+			twinOf[odd[i].ID] = &plain[i]
 		}
 		c.CountEval(1)
 		c.Distinct("odd:" + odd[i].ID + fmt.Sprint(odd[i].Names))
@@ -331,6 +386,15 @@ func checkC19(c *Ctx) {
 			}
 			if keySet(strip(v2a)) != keySet(strip(v2b)) {
 				gb = append(gb, "json_v2_key_set_differs")
+			} else if strings.HasPrefix(a.Case.ID, "selector-") {
+				// same graph, same roots, only the spelling of the ROOT differs: also the keys inside every item agree
+				ka, kb := itemKeySets(a.JSONv2), itemKeySets(b.JSONv2)
+				for k := range kb {
+					if ka[k] != kb[k] {
+						gb = append(gb, "json_v2_item_keys_differ:"+k)
+						break
+					}
+				}
 			}
 		}
 		if a.Exit == 0 {
@@ -355,7 +419,7 @@ func checkC19(c *Ctx) {
 			obs["tag_site"] = "footnote_forged_by_lf_in_name"
 		}
 		c.AddViolation(Violation{Predicate: strings.Join(b, ","), Spec: "FootJudge (Output!FootnotesOK)", Kind: "oddnames",
-			Input: map[string]interface{}{"case": byID[id].Case}, Observed: obs})
+			Input: map[string]interface{}{"case": byID[id].Case, "twin": twinOf[id]}, Observed: obs})
 	}
 	c.Note("%d repositories with odd names: tables parsed and judged by TLC, JSON v1/v2 validity and key sets compared with plain-name twins", len(fcs))
 }
@@ -363,7 +427,8 @@ func checkC19(c *Ctx) {
 func replayOddNames(c *Ctx, raw json.RawMessage) bool {
 	var rp struct {
 		Input struct {
-			Case cases.ScanCase `json:"case"`
+			Case cases.ScanCase  `json:"case"`
+			Twin *cases.ScanCase `json:"twin"`
 		} `json:"input"`
 	}
 	json.Unmarshal(raw, &rp)
@@ -375,6 +440,19 @@ func replayOddNames(c *Ctx, raw json.RawMessage) bool {
 	r, err := env.runCLI(rp.Input.Case, cliOpt{Formats: true, NoTrace: true})
 	if err != nil {
 		Infra("%v", err)
+	}
+	if rp.Input.Twin != nil && r.Exit == 0 {
+		// the same repository with the ROOT spelled plainly: the keys inside every JSON v2 item agree
+		t, err := env.runCLI(*rp.Input.Twin, cliOpt{Formats: true, NoTrace: true})
+		if err != nil {
+			Infra("%v", err)
+		}
+		ka, kb := itemKeySets(r.JSONv2), itemKeySets(t.JSONv2)
+		for k := range kb {
+			if ka[k] != kb[k] {
+				return true
+			}
+		}
 	}
 	if r.Exit != 0 || r.JSON == nil {
 		return true
